@@ -1,0 +1,60 @@
+//go:build verif
+// +build verif
+
+package schedulerplugin
+
+import (
+	"net"
+
+	corev1 "k8s.io/api/core/v1"
+	"tkestack.io/galaxy/pkg/ipam/cloudprovider"
+)
+
+// Hooks for the verification harness in /verif. Built only with -tags verif; adds no behaviour.
+
+// VerifUnbind handles one release event.
+func (p *FloatingIPPlugin) VerifUnbind(pod *corev1.Pod) error { return p.unbind(pod) }
+
+// VerifResyncIP runs the resync item of one allocated ip (checklist fetched now).
+func (p *FloatingIPPlugin) VerifResyncIP(ip net.IP) error {
+	meta := &resyncMeta{}
+	if err := p.fetchChecklist(meta); err != nil {
+		return err
+	}
+	var only []resyncObj
+	for _, o := range meta.allocatedIPs {
+		if o.fip.IP.Equal(ip) {
+			only = append(only, o)
+		}
+	}
+	meta.allocatedIPs = only
+	p.resyncAllocatedIPs(meta)
+	return nil
+}
+
+// VerifResyncOnce runs one whole resync pass.
+func (p *FloatingIPPlugin) VerifResyncOnce() error { return p.resyncPod() }
+
+// VerifSyncPodIP runs the pod ip sync of one pod.
+func (p *FloatingIPPlugin) VerifSyncPodIP(pod *corev1.Pod) error { return p.syncPodIP(pod) }
+
+// VerifSetCloudProvider installs a cloud provider.
+func (p *FloatingIPPlugin) VerifSetCloudProvider(cp cloudprovider.CloudProvider) {
+	p.cloudProvider = cp
+}
+
+// VerifDrainEvents takes all queued release events out of the channel.
+func (p *FloatingIPPlugin) VerifDrainEvents() []*corev1.Pod {
+	var out []*corev1.Pod
+	for {
+		select {
+		case e := <-p.unreleased:
+			out = append(out, e.pod)
+		default:
+			return out
+		}
+	}
+}
+
+// VerifUpdateConfigMap reloads the floatingip configuration from the ConfigMap.
+func (p *FloatingIPPlugin) VerifUpdateConfigMap() (bool, error) { return p.updateConfigMap() }
